@@ -19,8 +19,8 @@ from sim.alpha import _digest
 
 TOL = 1e-7
 TOL_CONTRACT = 2e-6
-TOL_P = 1e-7
-MAX_DIM = 1500
+TOL_P = 2e-6  # as TOL_CONTRACT: a contraction between two draws of one call may round at 1e-6
+MAX_DIM = 2048
 
 
 class Violation:
@@ -81,7 +81,7 @@ def action_type(world, r):
         m = r["m"]
         return f"{m['family']}{m.get('n', '')}"
     if do == "fault":
-        return r["kind"] + (":" + r["how"] if "how" in r else "")
+        return r["kind"] + (":" + r["how"] if "how" in r else "") + (":" + r["shape"] if r.get("shape", "square") != "square" else "")
     if do == "resize":
         return "resize"
     return do
@@ -673,7 +673,7 @@ def _born_match(world, pre, T, draws, outcomes, cell, out, props, rho0=None, dim
                     best["why"] = f"draw {k}: p = {np.array2string(np.asarray(d['p']), precision=4)} is not a distribution"
                 continue
             pn = p / p.sum()
-            if np.max(np.abs(pn - pref)) > TOL_P or np.any((pn > 1e-9) != (pref > 1e-9)):
+            if np.max(np.abs(pn - pref)) > TOL_P:
                 if k >= best["depth"]:
                     best["depth"] = k
                     best["why"] = (
@@ -761,8 +761,12 @@ def _check_measure(world, pre, post, r, res, S, cell, out, tol):
         return
     e = R.project(T.rho_pre, T.dims_pre, proj)
     tr = float(np.real(np.trace(e)))
+    # the forced-outcome chooser takes every outcome above 1e-6 of a draw; a reported outcome is
+    # impossible only below the product of that bound over the draws of the step
+    ndraw = sum(1 for d in res.draws if d["p"] is not None and len(d["p"]) > 1)
     if tr < 1e-10:
-        if born_ok:
+        # (between the two bounds the post-selected state is below the model's own rounding noise)
+        if born_ok and tr < 0.1 * 1e-6 ** max(1, ndraw):
             out.append(Violation(["C04"], "born", "zero-prob-outcome", cell, f"reported {outcomes} has probability {tr:.3g}"))
         return
     e = e / tr
